@@ -119,6 +119,9 @@ def obligations(ctx, tier):
                 out += core.g_row(K, PROP, f_sample, reps_s, cparams=cp)
                 out += core.g_row(K, PROP, f_ssi, reps_1, cparams=cp)
                 out += core.g_row(K, PROP, f_ss, reps_1x, cparams=cp)
+            # ---- exhaustive preimage count at 8 bits (u8-digit types, one digit): every RNG word
+            if A in ("BUintD8", "BIntD8"):
+                out += enumeration_rows(K, A, f_newi, f_sample, f_ssi)
             # ---- Standard
             out.append(standard_row(K, A))
     return out
@@ -150,3 +153,68 @@ def standard_row(K, A):
                         return core.Ob(key, PROP, "S", K.config, fid, core.PROVED,
                                        "the whole [%s; N] array is filled by Rng::fill and becomes the digits" % D, loc)
     return core.Ob(key, PROP, "S", K.config, fid, core.UNDECIDED, "not the single whole-array fill shape: " + nf.show_tree(tree)[:200], loc)
+
+
+def enumeration_rows(K, A, f_newi, f_sample, f_ssi):
+    """Unbiasedness at 8 bits: walk the sampler's guard tree for all 256 RNG words; accepted words must map onto the
+    requested range with the same number of preimages for every value, rejected words must re-enter the loop."""
+    F = K.F
+    out = []
+    S = core._sg(K)
+    guards._DESCEND = (S, F)
+    signed = A in SIGNED
+    ranges = [(0, 2), (5, 11), (0, 99), (3, 130 if not signed else 100), (7, 7), (0, 127)]
+    if signed:
+        ranges += [(-1, 1), (-128, 127), (-100, 27), (-128, -1)]
+    else:
+        ranges += [(0, 255), (1, 255), (128, 255)]
+    for which, fid in (("sample", f_sample), ("sample_single_inclusive", f_ssi)):
+        root = F.root_of(fid)
+        for lo, hi in ranges:
+            key = "%s:G:%s:%s:enum8_%s_%s" % (PROP, K.config, fid, str(lo).replace("-", "n"), str(hi).replace("-", "n"))
+            if root is None:
+                out.append(core.missing(PROP, "G", K, fid))
+                continue
+            loc = F.loc(F.instances[root]["d"])
+            tree = S.summary(root)
+            counts = {}
+            rejected = 0
+            status, detail = core.PROVED, ""
+            for word in range(256):
+                W = guards.World(1, {"rng_word": (lambda word=word: lambda W_, adt: word)()})
+                W.K = K
+                if which == "sample":
+                    ctree = S.summary(F.root_of(f_newi))
+                    o0, _ = guards.outcome(ctree, {0: W.wrap(A, lo), 1: W.wrap(A, hi)}, W)
+                    if o0[0] != "ret" or o0[1] is guards.OPAQUE:
+                        status, detail = core.UNDECIDED, "sampler construction not evaluable"
+                        break
+                    env = {0: o0[1], 1: guards.OPAQUE}
+                else:
+                    env = {0: W.wrap(A, lo), 1: W.wrap(A, hi), 2: guards.OPAQUE}
+                o, path = guards.outcome(tree, env, W)
+                if o[0] == "opaque":
+                    if isinstance(o[1], tuple) and o[1][0] == "S" and "loop" in o[1][1]:
+                        rejected += 1
+                        continue
+                    status, detail = core.UNDECIDED, "word %d: walk stopped at %s" % (word, nf.show_term(o[1])[:120])
+                    break
+                if o[0] != "ret" or not isinstance(o[1], BN):
+                    status, detail = core.UNDECIDED, "word %d: outcome %s" % (word, o[0])
+                    break
+                counts[o[1].v] = counts.get(o[1].v, 0) + 1
+            if status == core.PROVED:
+                outside = sorted(v for v in counts if not (lo <= v <= hi))
+                missing = [v for v in range(lo, hi + 1) if v not in counts]
+                distinct = sorted(set(counts.values()))
+                if outside:
+                    status, detail = core.VIOLATED, "range %d..=%d: values outside the range are produced (%s)" % (lo, hi, outside[:5])
+                elif missing:
+                    status, detail = core.VIOLATED, "range %d..=%d: %d values of the range are never produced (e.g. %s)" % (lo, hi, len(missing), missing[:3])
+                elif len(distinct) != 1:
+                    status, detail = core.VIOLATED, "range %d..=%d: preimage counts differ between values (%s; %d words rejected)" % (
+                        lo, hi, {c: sum(1 for x in counts.values() if x == c) for c in distinct}, rejected)
+                else:
+                    detail = "range %d..=%d: every value has %d preimages among the 256 words, %d words rejected" % (lo, hi, distinct[0], rejected)
+            out.append(core.Ob(key, PROP, "G", K.config, fid, status, detail, loc))
+    return out
